@@ -308,6 +308,18 @@ def ts_property(run, tier, seed, pid, describe=''):
         specs += [('all-3-variable-lag-1', st, gm) for st, gm in all_summary3()]
     specs.append(('empty', [], None))
     graphs = [build(s, gm) for _, s, gm in specs]
+    # derived objects are inputs too: the graph a derived-graph operation RETURNED (with whatever it cached or pre-marked on it)
+    # is itself queried and compared with the model evaluated on its extracted structure
+    derive = {'C14': lambda g: g.get_minimal_graph(), 'C15': lambda g: g.extend_graph(1, 1), 'C16': lambda g: g.get_stationary_graph()}.get(pid)
+    if derive:
+        nbase = len(graphs)
+        for i in range(0, nbase, 2 if tier == 'quick' else 3):
+            try:
+                h = derive(graphs[i])
+            except Exception:  # noqa: BLE001
+                continue
+            specs.append(('derived:' + specs[i][0], specs[i][1], specs[i][2]))
+            graphs.append(h)
     which = [p == pid for p in ('C14', 'C15', 'C16', 'C17')]
     out = run_cases(graphs, which, rng, tier, tag=pid.lower())
     from collections import Counter
